@@ -40,7 +40,7 @@ CHECKS["C07"] = {
 CHECKS["C04"] = {
     "text": "COST FUNCTIONS ONLY. Proof (Verus, real code): badness(t, s) == TeX.2021.108 for every t >= 0 and every s (64-bit operands, result in 0..=10000, no overflow, the try_into never fails), and LineBreaker::demerits == TeX.2021.859 (line penalty, break penalty sign cases, double/final hyphen, fitness-class adjacency on the real enum discriminants) for all arguments in the ranges the break loop admits; the width bookkeeping of the loop (Diffs::update_from_glue adds the glue's stretch to the slot of ITS order and nothing else, infinitely_stretchable == some fil/fill/filll total is non-zero, finite_stretchability, componentwise + and -) is proved too. This pins the demerit definition the optimality claim is stated in; it does NOT decide optimality.",
     "design_ref": "DESIGN.md §5 C04",
-    "note": "NOT proved: 'breakpoints iff a feasible sequence exists' and demerit-optimality of break_line_single_attempt (a 480-line VecDeque search with a dyn logger) - an inductive Knuth-Plass invariant on that body is outside what can be annotated here. A bounded stand-in (labelled bounded, never counted) compares it with an exhaustive search over all sets of legal breakpoints on ~10^6 small paragraphs (<= 4 boxes; glue of every order, penalties, kerns, discretionaries with hyphen demerits; no math, looseness); it found and led to the repair of three defects (discard-after-break TeX 837 and 840, tolerance cap TeX 863).",
+    "note": "NOT proved: 'breakpoints iff a feasible sequence exists' and demerit-optimality of break_line_single_attempt (a 480-line VecDeque search with a dyn logger) - an inductive Knuth-Plass invariant on that body is outside what can be annotated here. A bounded stand-in (labelled bounded, never counted) compares it with an exhaustive search over all sets of legal breakpoints on ~10^6 small paragraphs (<= 4 boxes; glue of every order, penalties, kerns, discretionaries with hyphen demerits, looseness +-1; no math); it found and led to the repair of three defects (discard-after-break TeX 837 and 840, tolerance cap TeX 863).",
     "technique": "contract-based deductive verification (Verus, nonlinear arithmetic hints) of the cost kernel",
 }
 CHECKS["C17"] = {
